@@ -67,12 +67,81 @@ func runMergeCase(rc *RunCtx, i int, content bool) {
 		return
 	}
 	defer w.Close()
+	if i%4 == 3 {
+		// A chain population: file j holds rows of partitions c<j> and (mostly) c<j+1>, so the
+		// files' compatibility graph is a path and greedy grouping has to bridge: whether a file
+		// can join depends on which files joined before it. Row sizes vary per file so that the
+		// size order differs from the chain order.
+		cspec := w.Specs[0]
+		cspec.Part = gen.PartFunc{Name: "byKey:cp", Fn: func(row map[string]any) string { s, _ := row["cp"].(string); return s }}
+		cspec.Partition = cspec.Part.Name
+		cspec.MinMax = nil
+		cspec.BufRows, cspec.BufBytes, cspec.RGRows, cspec.RGBytes = 1<<20, 1<<30, 1<<20, 1<<30
+		if ci, cerr := w.AddEngine(cspec); cerr == nil {
+			cr := r.Split("chain")
+			for j, n := 0, cr.Range(3, 6); j < n; j++ {
+				pad := strings.Repeat("x", core.Pick(cr, []int{0, 0, 40, 300, 900}))
+				var recs []*world.RowRec
+				parts := []string{fmt.Sprintf("c%d", j)}
+				if cr.Chance(0.7) {
+					parts = append(parts, fmt.Sprintf("c%d", j+1))
+				}
+				for _, pid := range parts {
+					for k, m := 0, cr.Range(1, 3); k < m; k++ {
+						recs = append(recs, w.NewRowWith(cr, ci, func(row map[string]any) {
+							row["cp"] = pid
+							if pad != "" {
+								row["pad"] = pad
+							}
+						}))
+					}
+				}
+				if err := w.IngestSync(ci, [][]*world.RowRec{recs}); err != nil {
+					rc.Violate(i, "scenario-failed", "", "chain population: "+err.Error(), nil)
+					return
+				}
+			}
+			rc.Res.Count("populations_with_chain", 1)
+		}
+	}
 	// the merging engine: fresh limits, same tokenizer, shares the stores
 	mspec := gen.PickEngineSpec(r.Split("mergespec"), w.Vocab, w.Tok)
 	mspec.RGRows = core.Pick(r, []int{1, 2, 4, 8, 20, 100, 10000})
 	mspec.RGBytes = core.Pick(r, []int{100, 400, 1500, 6000, 50000, 10 << 20})
 	mspec.MaxFileSize = core.Pick(r, []int{500, 3000, 20000, 1 << 20, 10 << 30})
 	mspec.MergeFiles = core.Pick(r, []int{2, 2, 3, 3, 4, 5, 10, 100})
+	if i%2 == 0 || i%4 == 3 {
+		// limits that bind on this very population: MaxFileSize = the size of two or three of its
+		// files together (so that some groups fit exactly and one more file does not), row-group
+		// limits = the rows/bytes of two or three of its blocks together
+		if pre, perr := w.Inventory(); perr == nil && len(pre) >= 2 {
+			var fileSizes, blockRows, blockBytes []int
+			for _, f := range pre {
+				sz := 0
+				for _, b := range f.Blocks {
+					sz += b.Meta.OnDiskSize()
+					blockRows = append(blockRows, b.Meta.Rows)
+					blockBytes = append(blockBytes, b.Meta.UncompressedSize)
+				}
+				fileSizes = append(fileSizes, sz)
+			}
+			sum := func(xs []int, n int) int {
+				t := 0
+				for _, j := range r.Perm(len(xs))[:min(n, len(xs))] {
+					t += xs[j]
+				}
+				return t
+			}
+			mspec.MaxFileSize = max(1, sum(fileSizes, r.Range(2, 3))+core.Pick(r, []int{0, 0, -1, 1, 7}))
+			if r.Bool() {
+				mspec.RGRows = max(1, sum(blockRows, r.Range(2, 3)))
+			}
+			if r.Bool() {
+				mspec.RGBytes = max(1, sum(blockBytes, r.Range(2, 3))+core.Pick(r, []int{0, 0, -1, 1}))
+			}
+			rc.Res.Count("populations_with_binding_limits", 1)
+		}
+	}
 	mi, err := w.AddEngine(mspec)
 	if err != nil {
 		rc.Violate(i, "scenario-failed", "", "merge engine: "+err.Error(), nil)
